@@ -166,7 +166,112 @@ def _relation_instances(tier: str) -> Iterator[Instance]:
             yield 2, tuple(v for t in tuples for v in t), ((0, 1),) * 2
 
 
+def _deep_instances(typ: str) -> Iterator[Instance]:
+    """Higher arities over two or three values and wider values at low arity (both tiers): cheap because the number of
+    boxes is 3^n / 6^n; added after the seeded-change waves showed that most misses were gaps of the explored space."""
+    if typ == "and":
+        for n in (4, 5):
+            yield n, (), ((0, 1),) * n
+    elif typ in ("affine_eq", "affine_geq", "affine_leq"):
+        for coeffs in itertools.product((-1, 1, 2), repeat=4):
+            for rhs in (-1, 0, 2):
+                yield 4, tuple(coeffs) + (rhs,), ((0, 1),) * 4
+        for coeffs in ((3, -2), (-3, 2), (3, 2), (-3, -2), (2, 3), (3, 3), (-3, -3), (1, -3), (-3, 1), (4, -3)):
+            for rhs in range(-5, 6):
+                yield 2, tuple(coeffs) + (rhs,), ((-2, 3),) * 2
+        for coeffs in ((2, -3, 1), (-2, 3, -1), (3, 2, -2), (1, 1, -3)):
+            for rhs in (-4, -1, 0, 1, 5):
+                yield 3, tuple(coeffs) + (rhs,), ((-1, 2), (0, 3), (-2, 1))
+    elif typ == "alldifferent":
+        yield 5, (), ((0, 3),) * 5
+        yield 3, (), ((-2, 3),) * 3
+        yield 6, (), ((0, 2),) * 6
+        yield 4, (), ((0, 1), (0, 4), (2, 4), (1, 3))
+    elif typ == "count_eq":
+        for a in (0, 1):
+            yield 5, (a,), ((0, 1),) * 4 + ((-1, 5),)
+            yield 6, (a,), ((0, 1),) * 5 + ((0, 5),)
+            yield 3, (a,), ((-2, 2),) * 2 + ((-1, 3),)
+    elif typ == "element_iv":
+        for l in itertools.product((-1, 0, 1), repeat=4):
+            yield 2, tuple(l), ((-1, 4), (-2, 2))
+        for l in ((0, 2, 0, 2, 1), (3, 1, 1, 3, 1), (2, 2, 2, 2, 2), (0, 1, 2, 3, 4), (4, 3, 2, 1, 0), (1, 3, 0, 3, 1)):
+            yield 2, tuple(l), ((-1, 5), (-1, 5))
+    elif typ == "element_lic":
+        for c in (0, 1):
+            yield 5, (c,), ((0, 1),) * 4 + ((-1, 4),)
+            yield 6, (c,), ((0, 1),) * 5 + ((-1, 5),)
+        yield 3, (1,), ((-2, 2),) * 2 + ((-1, 2),)
+    elif typ == "element_liv":
+        yield 5, (), ((0, 1),) * 3 + ((-1, 3), (-1, 2))
+        yield 6, (), ((0, 1),) * 4 + ((-1, 4), (0, 1))
+        yield 4, (), ((-1, 2),) * 2 + ((-1, 2), (-2, 3))
+    elif typ == "exactly_eq":
+        for a in (0, 1, 2):
+            for c in range(0, 5):
+                yield 4, (a, c), ((0, 2),) * 4
+        for c in range(0, 6):
+            yield 5, (1, c), ((0, 1),) * 5
+    elif typ == "exactly_true":
+        for n in (5, 6):
+            for c in range(0, n + 1):
+                yield n, (c,), ((0, 1),) * n
+    elif typ == "gcc":
+        for n in (4, 5):
+            for lows in itertools.product((0, 1, 2), repeat=2):
+                for ups in itertools.product((1, 2, 3, 4), repeat=2):
+                    if all(a <= b for a, b in zip(lows, ups)):
+                        yield n, (0,) + tuple(lows) + tuple(ups), ((0, 1),) * n
+        for lows in itertools.product((0, 1), repeat=3):
+            for ups in itertools.product((1, 2), repeat=3):
+                if all(a <= b for a, b in zip(lows, ups)):
+                    yield 4, (-1,) + tuple(lows) + tuple(ups), ((-1, 1),) * 4
+        for lows, ups in (((0, 0, 0, 0), (1, 1, 1, 1)), ((1, 0, 0, 1), (1, 2, 2, 1)), ((0, 1, 1, 0), (2, 1, 1, 2)), ((0, 0, 0, 0), (3, 1, 1, 3))):
+            yield 3, (0,) + lows + ups, ((0, 3),) * 3
+    elif typ == "lexicographic_leq":
+        yield 8, (), ((0, 1),) * 8
+        yield 4, (), ((0, 3),) * 4
+        yield 10, (), ((0, 1),) * 10
+    elif typ in ("max_eq", "min_eq", "max_leq", "min_geq"):
+        yield 5, (), ((0, 2),) * 5
+        yield 6, (), ((0, 1),) * 6
+        yield 3, (), ((-2, 3),) * 3
+        yield 4, (), ((0, 1), (1, 3), (-1, 2), (-1, 3))
+    elif typ == "relation":
+        pool = list(itertools.product((0, 1), repeat=4))
+        for k in (2, 3):
+            for tuples in itertools.combinations(pool[::3] if k == 3 else pool, k):
+                yield 4, tuple(v for t in tuples for v in t), ((0, 1),) * 4
+        pool = list(itertools.product((0, 1, 2), repeat=2))
+        for tuples in itertools.combinations(pool, 4):
+            yield 2, tuple(v for t in tuples for v in t), ((-1, 3),) * 2
+        # the documentation does not ask for any order of the tuples: every ordering of 2-3 distinct tuples
+        pool = list(itertools.product((-1, 0, 1), repeat=2))
+        for k in (2, 3):
+            for tuples in itertools.permutations(pool, k):
+                yield 2, tuple(v for t in tuples for v in t), ((-1, 1),) * 2
+        for tuples in itertools.permutations([(v,) for v in (-1, 0, 1, 2)], 3):
+            yield 1, tuple(v for t in tuples for v in t), ((-1, 2),)
+        pool = [(0, 0, 1), (0, 1, 0), (1, 0, 0), (1, 1, 1), (0, 1, 1)]
+        for tuples in itertools.permutations(pool, 3):
+            yield 3, tuple(v for t in tuples for v in t), ((0, 1),) * 3
+        squares = [(0, 0), (-1, 1), (1, 1), (-2, 4), (2, 4)]  # y = x*x listed by increasing y
+        for tuples in (squares, squares[::-1], squares[2:] + squares[:2]):
+            yield 2, tuple(v for t in tuples for v in t), ((-2, 2), (0, 4))
+    elif typ in ("no_sub_cycle", "scc"):
+        yield 5, (), ((0, 4), (0, 4), (1, 3), (0, 2), (2, 4))
+        yield 5, (), ((1, 4), (0, 3), (0, 4), (0, 1), (0, 4))
+
+
 def instances(typ: str, tier: str = "quick") -> Iterator[Instance]:
+    seen = set()
+    for inst in itertools.chain(_base_instances(typ, tier), _deep_instances(typ)):
+        if inst not in seen:
+            seen.add(inst)
+            yield inst
+
+
+def _base_instances(typ: str, tier: str = "quick") -> Iterator[Instance]:
     th = tier == "thorough"
     if typ == "and":
         for n in (2, 3, 4) if th else (2, 3):
